@@ -357,6 +357,24 @@ def rank_table(all_keys):
     return {k: i + 1 for i, k in enumerate(ks)}
 
 
+def gen_value(vl, vs):
+    """The value generator of harness/drv/table.c (fill_value)."""
+    if vs >= 0:
+        return bytes(((vs * 131 + i * 7) & 255) for i in range(vl))
+    r = -vs - 1; P = vl - r if r <= vl else 0
+    out = bytearray(((i % 16) * 13 + 1) & 255 for i in range(P))
+    x = (12345 + r * 2654435761) & 0xFFFFFFFF
+    for _ in range(vl - P):
+        x = (x * 1103515245 + 12345) & 0xFFFFFFFF
+        out.append((x >> 16) & 255)
+    return bytes(out)
+
+
+def literal_sweep_entries(rs, prefix):
+    """One entry per block (value longer than the block size); the block's Snappy encoding ends in a literal run of r + a few bytes."""
+    return [(ikey(b'lit%06d' % r, 7, 1), prefix + r, -(r + 1)) for r in rs]
+
+
 def table_case(exe, d, idx, ents, opts, rng, quick):
     """Build one table with the real builder, decode it independently, run the real reader; return the trace line."""
     spec = os.path.join(d, 't%d.spec' % idx); tf = os.path.join(d, 't%d.ldb' % idx); res = os.path.join(d, 't%d.res' % idx)
@@ -396,7 +414,7 @@ def table_case(exe, d, idx, ents, opts, rng, quick):
         line['decode_error'] = str(ex)
         return dict(line=line)
     dec = [(k, v) for b in t['blocks'] for (k, v, s, o) in b['entries']]
-    exp = [(k, bytes(((vs * 131 + i * 7) & 255) for i in range(vl))) for k, vl, vs in ents]
+    exp = [(k, gen_value(vl, vs)) for k, vl, vs in ents]
     line['entries_equal'] = 1 if dec == exp else 0
     line['sorted'] = 1 if all(ikey_cmp_key(dec[i][0]) < ikey_cmp_key(dec[i + 1][0]) for i in range(len(dec) - 1)) else 0
     line['crc_ok'] = 1 if (all(b['crc_ok'] for b in t['blocks']) and t['index_crc_ok'] and t['meta_crc_ok'] and (t['filter'] is None or t['filter']['crc_ok'])) else 0
@@ -510,6 +528,12 @@ def run_c16(tier, seed):
                     bloom=rng.choice([0, 1, 10]), mmap=rng.randint(0, 3))
         n = rng.choice([0, 1, 2, 5, 17, 40, 90, 150]) if i % 7 else rng.choice([0, 1, 2])
         cases.append((i, gen_entries(rng, n, styles[i % 4]) if n else [], opts))
+    # Snappy literal-length boundaries (60/61, 256/257, 65536/65537 bytes): every run length around them ends some block
+    nb = len(cases)
+    sweeps = [(list(range(30, 90)) + list(range(225, 300)), 6000, 4096)] if quick else [(list(range(1, 340)), 6000, 4096), (list(range(65480, 65560)), 24000, 4096)]
+    for si, (rs, prefix, blk) in enumerate(sweeps):
+        for part in range(0, len(rs), 45):
+            cases.append((nb, literal_sweep_entries(rs[part:part + 45], prefix), dict(block=blk, restart=16, snappy=1, bloom=0, mmap=rng.randint(0, 3)))); nb += 1
     results = c.pmap(lambda cs: table_case(exe, d, cs[0], cs[1], cs[2], random.Random(seed * 7919 + cs[0]), quick), cases, c.NCPU)
     lines = []
     for cs, r in zip(cases, results):
